@@ -140,6 +140,7 @@ type Facts struct {
 	WrapperSites  int            `json:"wrapper_sites"`
 	TemplateSites int            `json:"template_sites"`
 	TemplateVariants int         `json:"template_variants"`
+	InitPerCell   []string       `json:"init_per_cell"` // models whose InitialiseStates fills the array cell by cell (row width taken from the first cell)
 	Errors        []string       `json:"errors"`
 	Violations    []Violation    `json:"violations"`
 }
@@ -1861,7 +1862,7 @@ func main() {
 		root = "/repo"
 	}
 	root, _ = filepath.Abs(root)
-	facts := &Facts{Root: root, Sites: []Site{}, GoStmts: []GoStmtRef{}, Errors: []string{}}
+	facts := &Facts{Root: root, Sites: []Site{}, GoStmts: []GoStmtRef{}, Errors: []string{}, InitPerCell: []string{}}
 	readCellDims(root, facts)
 
 	var files []string
@@ -1895,6 +1896,25 @@ func main() {
 			for _, d := range f.Decls {
 				if fd, ok := d.(*ast.FuncDecl); ok && fd.Recv != nil && fd.Name.Name == "Run" {
 					facts.WrapperFiles++
+				}
+				if fd, ok := d.(*ast.FuncDecl); ok && fd.Recv != nil && fd.Name.Name == "InitialiseStates" && fd.Body != nil {
+					perCell := false
+					ast.Inspect(fd.Body, func(x ast.Node) bool {
+						if loop, ok := x.(*ast.ForStmt); ok {
+							ast.Inspect(loop.Body, func(y ast.Node) bool {
+								if c, ok := y.(*ast.CallExpr); ok {
+									if sel, ok := c.Fun.(*ast.SelectorExpr); ok && mutating[sel.Sel.Name] {
+										perCell = true
+									}
+								}
+								return true
+							})
+						}
+						return true
+					})
+					if perCell {
+						facts.InitPerCell = append(facts.InitPerCell, strings.TrimSuffix(funcName(fd), ".InitialiseStates"))
+					}
 				}
 			}
 		}
